@@ -81,9 +81,19 @@ pub fn split(ctx: &mut Ctx) {
         for m in [51usize, 52, 53, 64, 65, 52 + largest_fixed, 52 + largest_fixed + 1, 52 + largest_fixed - 1, full.len(), full.len() + 1, full.len() - 1, full.len() / 2, 200, 1000] { maxes.push(m); }
         maxes.sort(); maxes.dedup();
         for max in maxes {
+            // first in a forked child under a time and memory limit: a too small maximum must be an error, never an endless loop
+            let f3 = full.clone();
+            let probe = crate::util::isolated(8000, 1500, move || match portable_network_archive::verif::split_in_memory(&f3, max) { Ok(p) => format!("ok {}", p.len()), Err(e) => format!("err {}", err_kind(&e)) });
+            ctx.oracle_eval();
+            if let Err(why) = &probe {
+                // hang = wall-clock limit hit; crash = aborted (typically: memory limit hit by an endless loop that keeps allocating)
+                ctx.violation("C04", "splitting does not terminate or aborts (endless loop / runaway allocation) for this maximum size", json!({"archive":desc,"max":max,"outcome":why,"archive_hex":hex(&full[..full.len().min(6000)])}));
+                ctx.violation("C07", "split hangs or aborts", json!({"max":max,"outcome":why}));
+                ctx.case(json!({"op":"split.archive","archive":ai,"max":max,"len":full.len()}), format!("split.archive {} {}", hexw(&full), max), why.split(':').next().unwrap_or("hang").to_string(), true);
+                continue;
+            }
             let f2 = full.clone();
             let r = catch(move || portable_network_archive::verif::split_in_memory(&f2, max));
-            ctx.oracle_eval();
             let min_ok = max >= 52 + largest_fixed.max(13);
             let imp = match r {
                 Err(p) => { ctx.violation("C04", "splitting panicked", json!({"archive":desc,"max":max,"panic":p})); ctx.violation("C07", "split panicked", json!({"max":max,"panic":p})); format!("panic {p}") }
